@@ -115,6 +115,16 @@ def _setctr(start):
 def _dctr(start):
     c = _it.count(start)
     return lambda: {"k": next(c)}
+
+
+def _octr(start):       # products are INSTANCES of a Structure class: Owner(name="n<k>")
+    c = _it.count(start)
+    return lambda: Owner(name=f"n{next(c)}")
+
+
+def _olctr(start):
+    c = _it.count(start)
+    return lambda: [Owner(name=f"n{next(c)}")]
 """
 
 
@@ -584,6 +594,11 @@ def factory_for(m, rng):
         if k == "str":
             return {"src": f"_sctr({start})", "v": f"s{start}"}
         return None
+    owner = {"m": "struct", "c": "Owner"}
+    if t == owner:
+        return {"src": f"_octr({start})", "v": {"o": ["Owner", [["name", f"n{start}"]]]}}
+    if t["m"] == "coll" and t["x"] == owner and t["c"] == "list":
+        return {"src": f"_olctr({start})", "v": {"l": [{"o": ["Owner", [["name", f"n{start}"]]]}]}}
     int_elem = {"m": "scalar", "k": "int"}
     if t["m"] == "coll" and t["x"] == int_elem and t["c"] in ("list", "tuple", "set"):
         tag, fn = {"list": ("l", "_lctr"), "tuple": ("t", "_tctr"), "set": ("s", "_setctr")}[t["c"]]
@@ -1082,8 +1097,10 @@ def factory_cases(rng, tier):
             {"m": "alt", "x": int_, "y": str_}, {"m": "coll", "c": "list", "x": int_},
             {"m": "coll", "c": "tuple", "x": int_}, {"m": "coll", "c": "set", "x": int_},
             {"m": "dict", "x": str_, "y": int_}, {"m": "bare", "c": "list"}, {"m": "bareDict"},
-            {"m": "opt", "x": {"m": "coll", "c": "list", "x": int_}}]
-    picks = pool if tier != "quick" else [int_, pool[6]] + rng.sample([p for p in pool if p not in (int_, pool[6])], 3)
+            {"m": "opt", "x": {"m": "coll", "c": "list", "x": int_}},
+            {"m": "struct", "c": "Owner"}, {"m": "opt", "x": {"m": "struct", "c": "Owner"}},
+            {"m": "coll", "c": "list", "x": {"m": "struct", "c": "Owner"}}]
+    picks = pool if tier != "quick" else [int_, pool[6], pool[-3]] + rng.sample([p for p in pool if p not in (int_, pool[6], pool[-3])], 3)
     other = {"m": "scalar", "k": rng.choice(["str", "int"])}
     cases = []
     for m in picks:
@@ -1463,6 +1480,9 @@ def _product_index(v):
         return int(v)
     if isinstance(v, str) and v[:1] == "s" and v[1:].isdigit():
         return int(v[1:])
+    nm = getattr(v, "name", None) if hasattr(v, "get_all_fields_by_name") else None
+    if isinstance(nm, str) and nm[:1] == "n" and nm[1:].isdigit():
+        return int(nm[1:])        # Owner(name="n<k>")
     if isinstance(v, (list, tuple, set, frozenset)) or hasattr(v, "__iter__") and not isinstance(v, (str, dict)):
         xs = list(v)
         return _product_index(xs[0]) if len(xs) == 1 else None
